@@ -18,7 +18,7 @@ func init() {
 		Rule: jsonFamilyRule + "; for every component type and JSON request-body type, type-directed rapid values (boundary integers, finite floats incl. float32, escape-needing strings, nil/empty/non-empty slices and maps, hostile map keys disjoint from declared names, RawMessage with arbitrary valid JSON, zoned times, exactly one oneOf variant with a legal discriminator value); " +
 			"oracle: MarshalJSON output is valid JSON, json.Marshal succeeds, json.Unmarshal of it succeeds and the result equals the value (nil == empty collection, times by instant, RawMessage up to JSON equivalence); " +
 			"non-trivial = value with an unset optional, a null, a non-empty collection or an escape-needing string; distinct by (type, shape of the JSON)",
-		Assume: []string{"valid UTF-8 strings, finite floats, whole-minute zone offsets, years 1-9999 (DESIGN.md §11)"},
+		Assume:    []string{"valid UTF-8 strings, finite floats, whole-minute zone offsets, years 1-9999 (DESIGN.md §11)"},
 		Main:      func(e *Env) (*res.Result, error) { return jsonMain(e, "C06") },
 		MinNonTrv: 500,
 	})
@@ -26,7 +26,7 @@ func init() {
 		ID: "C07",
 		Rule: jsonFamilyRule + "; the same type-directed values are encoded and the JSON is judged against the source schema by an independent validator: required present, no undeclared keys unless additionalProperties is declared, null only where nullable, declared JSON types and formats, allOf merged into one object, the discriminated oneOf variant; a fifth of the request-body values also travel through the generated client and the captured wire body is validated; " +
 			"non-trivial = value with an unset optional, a null or a non-empty collection; distinct by (type, shape of the JSON)",
-		Assume: []string{"the purpose-built validator is the oracle; kin-openapi's schema visitor is not used for verdicts (v0.38 quirks must not become alarms)"},
+		Assume:    []string{"the purpose-built validator is the oracle; kin-openapi's schema visitor is not used for verdicts (v0.38 quirks must not become alarms)"},
 		Main:      func(e *Env) (*res.Result, error) { return jsonMain(e, "C07") },
 		MinNonTrv: 500,
 	})
@@ -35,7 +35,7 @@ func init() {
 		Rule: jsonFamilyRule + "; documents are generated FROM the schema by an independent generator (all optional subsets, null where nullable, extra keys where additionalProperties is declared and - tolerance only - where it is absent, chosen oneOf variant), rendered with rapid-chosen key order and whitespace, and a third carry one planted fault (drop one required key at any depth, or replace one declared single-typed property's value by a value of another JSON type); half of the request-body documents are sent over HTTP and read through Parse(); " +
 			"oracle: valid => decodes without error and re-encodes to a schema-aware equivalent JSON value (undeclared keys on objects without the keyword need not survive); fault => rejected with an error naming the property; " +
 			"non-trivial = every valid document with its shape and every mutant; distinct by (type, shape or fault site)",
-		Assume: []string{"faults are only the two kinds the statement names; bad formats, out-of-range numbers and duplicate keys are don't-cares"},
+		Assume:    []string{"faults are only the two kinds the statement names; bad formats, out-of-range numbers and duplicate keys are don't-cares"},
 		Main:      func(e *Env) (*res.Result, error) { return jsonMain(e, "C08") },
 		MinNonTrv: 500,
 	})
@@ -44,7 +44,7 @@ func init() {
 		Rule: "rapid-drawn parameter/body specs with --client: typed path variables (adjacent, between literals), query scalars and arrays, headers, operation/path-item level with overriding, inline / schema $ref / component parameter forms, JSON (inline/component/alias) and raw request bodies, base-path forms supplied by the caller in BaseURL; per operation type-directed rapid values of the generated XParams type (reserved URL characters, spaces, unicode, '..', boundary numbers, zoned times, empty optional strings, multi-element arrays); " +
 			"oracle A: Client.<Op>(ctx, p) through an in-process transport (thorough: also a loopback httptest.Server) makes the handler's Parse() succeed with parameters equal to p (raw bodies by content); oracle B: the captured wire request satisfies the reference request validator (method, path matches the template under the base path, required parameters present, every value in its lexical space and location, JSON body valid for the schema); " +
 			"non-trivial = value with an unset optional, an escape-needing string or a non-empty array; distinct by (operation, shape of the value)",
-		Assume: []string{"path values non-empty and '/'-free, required arrays non-empty, set-but-empty optional array == unset, times compared as instants, header strings are field-value text (DESIGN.md §11)", "kin-openapi's request validator is not used for verdicts"},
+		Assume:    []string{"path values non-empty and '/'-free, required arrays non-empty, set-but-empty optional array == unset, times compared as instants, header strings are field-value text (DESIGN.md §11)", "kin-openapi's request validator is not used for verdicts"},
 		Main:      c09Main,
 		MinNonTrv: 500,
 	})
